@@ -15,12 +15,14 @@ ID = 'C12'
 RULE = ('cases = generated G-MAT settings incl. degenerate ones (no matrix anywhere / exactly one matrix / an empty pattern) '
         'and pattern-shaped families x candidate time limit {10 s, default 0.25 s, 0.05 s} x cache history {cold, warm in '
         'the same process, warm written by a child process with another hash seed, matrix cache first touched by a '
-        'per-pattern iteration}; oracle = selection returns without '
+        'per-pattern iteration} x selection variant {default, lazy_first: n_mat_max_eager=1 sends small settings down the '
+        'lazy-encoders-first branch}; oracle = selection returns without '
         'exception, the returned coding passes the C10 encoder checks (validity, fixed point, onto, listing) on the '
         'declared space (sampled above 400 vectors), <= 1 matrix overall => no design variables, cold / warm / '
         'other-process results agree on the design-variable list and on the decode table (and on the encoder name under '
         'the generous limit); cache keys: for generated pairs of settings whose reference matrix maps differ the keys '
-        'differ; one evaluation = one selection; non-trivial = >= 2 matrices in some pattern and a warm or cross-process '
+        'differ (mutations: degree, repeat flag, exclusion, parallel limit, existence pattern, and unset parallel limit '
+        '<-> the value it implies); one evaluation = one selection; non-trivial = >= 2 matrices in some pattern and a warm or cross-process '
         'cache hit compared; distinct by sha1(settings, limit, history)')
 BUDGET = {'quick': 16, 'thorough': 300}
 
